@@ -75,6 +75,12 @@ def gen_src(rng):
         k = rng.randrange(5)
         parts.append(['Cited[#c1] and [#c2;].\n\n[#c1]: Doe. *Book*.\n\n[#c2]: Roe. *Paper*.', 'Note[^n1] and inline[^an inline note].\n\n[^n1]: The note.',
                       'A [?term] here.\n\n[?term]: Its definition.', 'The AB1 abbreviation.\n\n[>AB1]: Abbreviation One', 'Mixed[^m][#c9] [?g].\n\n[^m]: n\n\n[#c9]: c\n\n[?g]: d'][k])
+    if rng.random() < 0.25:
+        # text that a formatting function would read as directives: package members are assembled from pieces, and every piece is data
+        pct = rng.choice(['About 50% of the samples and 20%d more, 30%x, 100%s sure; 5%c 7%5$s %%', 'rate %d%% %s %10.3f %p %ld %zu', 'path C:\\\\dir\\\\%USER%\\\\file 100%', '%1$s %2$d %*d'])
+        parts.append(pct)
+        if rng.random() < 0.4:
+            meta.append('Subtitle: 100%s %d%% done')
     if rng.random() < 0.15:
         parts.append('again[^rn] ![x1](pic.png) and[^rn] ![x2](other.png) and[^rn] ![x3](tiny.gif)\n\n[^rn]: called three times')
     if rng.random() < 0.25:
